@@ -32,10 +32,46 @@ func init() {
 }
 
 type imgArg struct {
-	Name int    `json:"name"`
-	Fmt  string `json:"fmt"`
-	Atom int    `json:"atom"`
+	Name   int    `json:"name"`
+	Fmt    string `json:"fmt"`
+	Atom   int    `json:"atom"`
+	ByPath bool   `json:"by_path,omitempty"` // given as a file path, not as bytes
 }
+
+// dumpTemplateData: everything a caller can see of a template data object
+func dumpTemplateData(d *document.TemplateData) string {
+	if d == nil {
+		return "nil"
+	}
+	var b strings.Builder
+	var names []string
+	for n := range d.Images {
+		names = append(names, n)
+	}
+	sort.Strings(names)
+	for _, n := range names {
+		im := d.Images[n]
+		if im == nil {
+			fmt.Fprintf(&b, "[%s nil]", n)
+			continue
+		}
+		h := sha1.Sum(im.Data)
+		// every field, also ones this harness does not know by name (%+v prints unexported fields too)
+		all := sha1.Sum([]byte(fmt.Sprintf("%+v", *im)))
+		fmt.Fprintf(&b, "[%s path=%q data=%d:%x alt=%q title=%q cfg=%v all=%x]", n, im.FilePath, len(im.Data), h[:4], im.AltText, im.Title, im.Config != nil, all[:4])
+	}
+	fmt.Fprintf(&b, " vars=%v lists=%d conds=%v", d.Variables, len(d.Lists), d.Conditions)
+	return b.String()
+}
+
+// errRefused: the library refused a call that the generator made on purpose with an argument it may refuse; the
+// call is not part of the history
+var errRefused = fmt.Errorf("call refused")
+
+// dataPool: the caller's shared template data objects of the history that is running (by DataID), and what they
+// looked like when they were built
+var dataPool = map[int]*document.TemplateData{}
+var dataPoolDump = map[int]string{}
 
 type hop struct {
 	Kind    string   `json:"kind"`
@@ -57,6 +93,8 @@ type hop struct {
 	HUm     int      `json:"h_um,omitempty"`
 	HasCfg  bool     `json:"has_cfg,omitempty"`
 	CfgID   int      `json:"cfg_id,omitempty"` // > 0: the caller's configuration object with this number (shared between additions)
+	FmtStr  string   `json:"fmt_str,omitempty"` // a format string that is not one of the library's constants ("PNG", "Jpeg", "bmp", ""): the call may be refused
+	DataID  int      `json:"data_id,omitempty"` // Render: > 0 = the caller's template data object with this number (shared between renderings)
 	Imgs    []imgArg `json:"imgs,omitempty"`
 	ToFile  bool     `json:"to_file,omitempty"`
 }
@@ -316,7 +354,7 @@ func genForeign(r *rng) *foreignPkg {
 			f.Defaults[ext] = "application/octet-stream"
 		}
 		if r.chance(75) {
-			rels = append(rels, fRel{ID: newID(), Kind: otherKinds[1+r.intn(4)], Target: strings.TrimPrefix(name, "word/")})
+			rels = append(rels, fRel{ID: newID(), Kind: otherKinds[1+r.intn(len(otherKinds)-1)], Target: strings.TrimPrefix(name, "word/")})
 		}
 	}
 	for i, n := 0, r.pick([]int{50, 30, 20}); i < n; i++ {
@@ -510,7 +548,14 @@ func applyHop(regs []*docState, h hop, tmp string) (obs *saveObs, err error) {
 				return nil, e
 			}
 		} else {
-			if _, e := s.doc.AddImageFromData(data, h.FName, fmtOf[h.Fmt], w, ht, cfg); e != nil {
+			format := fmtOf[h.Fmt]
+			if h.FmtStr != "" {
+				format = document.ImageFormat(h.FmtStr)
+			}
+			if _, e := s.doc.AddImageFromData(data, h.FName, format, w, ht, cfg); e != nil {
+				if h.FmtStr != "" {
+					return nil, errRefused
+				}
 				return nil, e
 			}
 			if s.extIn != nil {
@@ -589,15 +634,40 @@ func applyHop(regs []*docState, h hop, tmp string) (obs *saveObs, err error) {
 		if _, e := te.LoadTemplateFromDocument("t", src.doc); e != nil {
 			return nil, e
 		}
-		data := document.NewTemplateData()
 		have := map[int]imgArg{}
 		for _, a := range h.Imgs {
-			data.SetImageFromData(fmt.Sprintf("img%d", a.Name), imageBytes(a.Fmt, a.Atom), nil)
 			have[a.Name] = a
 		}
+		build := func() *document.TemplateData {
+			data := document.NewTemplateData()
+			for _, a := range h.Imgs {
+				if a.ByPath {
+					fn := filepath.Join(tmp, fmt.Sprintf("tplimg%d.%s", a.Atom, a.Fmt))
+					os.WriteFile(fn, imageBytes(a.Fmt, a.Atom), 0644)
+					data.SetImage(fmt.Sprintf("img%d", a.Name), fn, nil)
+				} else {
+					data.SetImageFromData(fmt.Sprintf("img%d", a.Name), imageBytes(a.Fmt, a.Atom), nil)
+				}
+			}
+			return data
+		}
+		var data *document.TemplateData
+		if h.DataID > 0 {
+			if dataPool[h.DataID] == nil {
+				dataPool[h.DataID] = build()
+				dataPoolDump[h.DataID] = dumpTemplateData(dataPool[h.DataID])
+			}
+			data = dataPool[h.DataID]
+		} else {
+			data = build()
+		}
+		before := dumpTemplateData(data)
 		nd, e := te.RenderTemplateToDocument("t", data)
 		if e != nil {
 			return nil, e
+		}
+		if after := dumpTemplateData(data); after != before {
+			return nil, fmt.Errorf("data_modified: rendering changed the template data it was given: %s -> %s", before, after)
 		}
 		ns := src.clone(nd)
 		for _, name := range src.phs {
@@ -913,6 +983,13 @@ func genHistory(r *rng, prop string) (foreign *foreignPkg, ops []hop) {
 		case 0:
 			f := []string{"png", "jpeg", "gif"}[r.intn(3)]
 			h := hop{Kind: "AddImage", R: reg, Fmt: f, Atom: nextAtom(), FName: fnames[r.intn(len(fnames))]}
+			if r.chance(8) {
+				// the format given in another spelling, or not a format of the library: refused, or handled like the format
+				h.FmtStr = map[string][]string{"png": {"PNG", "Png", "image/png"}, "jpeg": {"JPEG", "Jpeg", "jpg", "JPG"}, "gif": {"GIF", "Gif"}}[f][r.intn(2)]
+				if r.chance(25) {
+					h.FmtStr = []string{"bmp", "", " png", "tiff"}[r.intn(4)]
+				}
+			}
 			if r.chance(25) {
 				h.Cell = true
 				h.WMM = r.rangeI(0, 60)
@@ -969,9 +1046,35 @@ func genHistory(r *rng, prop string) (foreign *foreignPkg, ops []hop) {
 				dst = (dst + 1) % 3
 			}
 			h := hop{Kind: "Render", R: dst, Src: reg}
-			for _, name := range phs[reg] {
-				if r.chance(80) {
-					h.Imgs = append(h.Imgs, imgArg{Name: name, Fmt: []string{"png", "jpeg", "gif"}[r.intn(3)], Atom: nextAtom()})
+			// the caller's data: an object of this rendering alone, or one used for several renderings
+			var prevR []hop
+			for _, o := range ops {
+				if o.Kind == "Render" && o.DataID > 0 {
+					prevR = append(prevR, o)
+				}
+			}
+			if len(prevR) > 0 && r.chance(45) {
+				o := prevR[r.intn(len(prevR))]
+				h.DataID, h.Imgs = o.DataID, o.Imgs
+			} else {
+				for _, name := range phs[reg] {
+					if r.chance(80) {
+						h.Imgs = append(h.Imgs, imgArg{Name: name, Fmt: []string{"png", "jpeg", "gif"}[r.intn(3)], Atom: nextAtom(), ByPath: r.chance(30)})
+					}
+				}
+				// some data for placeholders the template may not have (a shared object meets other templates later)
+				if r.chance(40) {
+					extra := imgArg{Name: 1 + r.intn(3), Fmt: []string{"png", "jpeg", "gif"}[r.intn(3)], Atom: nextAtom(), ByPath: r.chance(30)}
+					dup := false
+					for _, a := range h.Imgs {
+						dup = dup || a.Name == extra.Name
+					}
+					if !dup {
+						h.Imgs = append(h.Imgs, extra)
+					}
+				}
+				if r.chance(50) {
+					h.DataID = 1 + len(prevR)
 				}
 			}
 			ops = append(ops, h)
@@ -1036,6 +1139,7 @@ func runPkgCase(prop string, c pkgCase, tmp string) (coq string, fails []OracleF
 	var doc *document.Document
 	st := &docState{hf: map[string]string{}, touched: map[string]bool{}, extents: map[int][2]int64{}, extIn: map[int]extIn{}}
 	casePool = map[int]*document.ImageConfig{}
+	dataPool, dataPoolDump = map[int]*document.TemplateData{}, map[int]string{}
 	if c.Foreign != nil {
 		raw := c.Foreign.build()
 		fv, err := readPackage(raw)
@@ -1085,8 +1189,15 @@ func runPkgCase(prop string, c pkgCase, tmp string) (coq string, fails []OracleF
 			continue
 		}
 		obs, err := applyHop(regs, h, tmp)
+		if err == errRefused {
+			continue
+		}
 		if err != nil {
-			fails = append(fails, OracleFailure{Clause: "call_succeeds", Detail: fmt.Sprintf("op %d %s: %v", i, h.Kind, err)})
+			clause := "call_succeeds"
+			if strings.HasPrefix(err.Error(), "data_modified") {
+				clause = "data_unchanged"
+			}
+			fails = append(fails, OracleFailure{Clause: clause, Detail: fmt.Sprintf("op %d %s: %v", i, h.Kind, err)})
 			break
 		}
 		nOK++
